@@ -124,7 +124,7 @@ def run(ck: Check):
                             dict(case, freeze_calls=k, frozen=fr.tolist(), expected=exp_frozen.tolist()),
                             signature={"what": "freeze-idempotent" if k > 1 else "freeze-round"})
                 break
-            if float((fr - before).abs().max()) > 0.5 + 1e-6:
+            if not (float((fr - before).abs().max()) <= 0.5 + 1e-6):
                 ck.disagree("frozen thresholds are further than 1/2 from the trained ones", dict(case, freeze_calls=k), signature={"what": "freeze-close"})
             check_layer(layer, dict(case, freeze_calls=k), frozen_times=k)
     # ---- the recorded finding is replayed explicitly
@@ -136,6 +136,24 @@ def run(ck: Check):
     if not (thr[0] < thr[1]):
         ck.disagree("two consecutive learnable thresholds are equal (not strictly increasing)", {"raw_diffs": [1.0, -120.0, 1.0], "thresholds": thr},
                     signature={"what": "strict-increase", "float_resolution": True})
+    # F13c: thresholds above 2^24 - the float32 cumulative sum of the stored increments does not reproduce representable
+    # thresholds, and freezing twice moves such a threshold (classified by cause: every threshold involved is above 2^24 and the
+    # error is below one ulp of it; anything else is reported as an ordinary violation)
+    for init in ([1.0, 16777218.0, 16777220.0], [30.0, 59880724.0, 249062112.0, 536558784.0]):
+        big = T(init)
+        got = big.get_thresholds().tolist()
+        ck.case({"init": init, "finding": "F13c"}, kind="known-finding-replay")
+        bad = [(a, b) for a, b in zip(init, got) if a != b]
+        big.freeze_thresholds()
+        f1 = big.get_thresholds().tolist()
+        big.freeze_thresholds()
+        f2 = big.get_thresholds().tolist()
+        bad += [(a, b) for a, b in zip(f1, f2) if a != b]
+        if bad:
+            res = all(abs(a) > 2 ** 24 and abs(a - b) <= 2 * float(np.spacing(np.float32(abs(a)))) for a, b in bad)
+            ck.disagree("thresholds above 2^24: a fresh layer does not report its initial thresholds / a second freeze moves a threshold",
+                        {"init": init, "fresh": got, "frozen_once": f1, "frozen_twice": f2},
+                        signature={"what": "large-threshold-roundtrip", "float_resolution": bool(res)})
     # ---- fresh layer = initial thresholds
     inits = [[1.0, 2.0, 3.0], [0.001, 0.002, 0.5], [0.25], [5.0, 30.0, 90.0, 200.0], [10.0, 20.5, 21.0, 21.25, 22.0],
              [64.0, 64.5, 65.0, 128.0, 128.25], [19.5, 40.0, 40.0625, 61.0], [0.5, 25.0, 25.5, 26.0]]
@@ -316,7 +334,7 @@ def run(ck: Check):
                 except Exception:
                     ck.count("dtype_variant_rejected")
                     continue
-                if tuple(y.shape) != tuple(ref.shape) or float((y.double() - ref.double()).abs().max()) > 1e-3:
+                if tuple(y.shape) != tuple(ref.shape) or not (float((y.double() - ref.double()).abs().max()) <= 1e-3):
                     ck.disagree("thermometer code of an integer-valued image depends on the dtype it is stored in",
                                 {"rank": rank, "frozen": frozen, "dtype": str(dt)}, signature={"what": "dtype"})
                 ck.count("dtype_variant_checks")
